@@ -385,6 +385,13 @@ func (self *Core) runInstruction(instruction compiler.Instruction) *value.VmInte
 		case value.IntValueKind:
 			lInt := l.(value.ValueInt)
 			rInt := r.(value.ValueInt)
+			if rInt.Inner == 0 {
+				return self.fatalErr(
+					"Division by zero error: this is operation is illegal",
+					value.Vm_ValueErrorKind,
+					self.parent.SourceMap(*self.callFrame()),
+				)
+			}
 			self.push(value.NewValueInt(lInt.Inner % rInt.Inner))
 		default:
 			panic("This value combination is unsupported")
@@ -482,6 +489,13 @@ func (self *Core) runInstruction(instruction compiler.Instruction) *value.VmInte
 		case value.IntValueKind:
 			lInt := l.(value.ValueInt)
 			rInt := r.(value.ValueInt)
+			if rInt.Inner < 0 {
+				return self.fatalErr(
+					"Negative shift count: this is operation is illegal",
+					value.Vm_ValueErrorKind,
+					self.parent.SourceMap(*self.callFrame()),
+				)
+			}
 			self.push(value.NewValueInt(lInt.Inner << rInt.Inner))
 		default:
 			panic("This value combination is unsupported")
@@ -494,6 +508,13 @@ func (self *Core) runInstruction(instruction compiler.Instruction) *value.VmInte
 		case value.IntValueKind:
 			lInt := l.(value.ValueInt)
 			rInt := r.(value.ValueInt)
+			if rInt.Inner < 0 {
+				return self.fatalErr(
+					"Negative shift count: this is operation is illegal",
+					value.Vm_ValueErrorKind,
+					self.parent.SourceMap(*self.callFrame()),
+				)
+			}
 			self.push(value.NewValueInt(lInt.Inner >> rInt.Inner))
 		default:
 			panic("This value combination is unsupported")
